@@ -192,6 +192,9 @@ func (s *Solver) solve(o *Obligation) *SolveResult {
 		if r.status == "error" && res.Output == "" {
 			res.Output = r.name + ": " + firstLines(r.text, 5)
 		}
+		if r.status == "unknown" && res.Model == "" && strings.Contains(r.text, "((") {
+			res.Model = r.text // candidate model (quantifiers: incomplete); only trusted if it replays
+		}
 		if r.status == "unsat" || r.status == "sat" {
 			if definitive == 0 {
 				res.Status, res.Solver, res.Seconds = r.status, r.name, r.secs
